@@ -26,8 +26,12 @@ m = {
  "not_applicable": [],
  "notes": "exit 0 = held on everything explored (KNOWN-FINDING lines for listed findings); exit 1 = VIOLATION line(s); exit 2 = inconclusive/infrastructure. VERIF_SEED selects the derived rapid seeds. See DESIGN.md."
 }
+ready = set(open(os.path.join(V, "tools", "ready.txt")).read().split())
 for pid in props:
     c = cfgs.get(pid)
+    if c is not None and pid not in ready:
+        m["not_applicable"].append({"property_id": pid, "reason": "check under construction (props/%s exists but is not yet validated on the unchanged tree); no claim is made for it yet" % pid.lower()})
+        continue
     if c is None:
         m["not_applicable"].append({"property_id": pid, "reason": "check not built yet (planned in DESIGN.md section 4); no claim is made for it"})
         continue
